@@ -15,7 +15,9 @@
    Two versions of the _ordered_merge call-site table are kept side by side (`mver`):
      MOrig   dataframe.py as found (defects F-C02a..e);
      MFixed  after work/C02/fix-F-C02a..e.diff.
-   operations.py is the repaired one in both (Join.v = repaired tree, MapStream.v version Fixed).
+   operations.py is the repaired one in both (Join.v = repaired tree, MapStream.v version Fixed =
+   after the C04 fixes and work/E7/fix-F-C02f.diff: the map streams accept maps in any order, which is
+   what the right-hand map of a many-to-many merge needs).
 
    A column is either fixed-width (numeric, bool, categorical codes, timestamp: one-element lists
    [v]; fixed strings: byte lists) or an indexed string column (offsets, bytes).  Names are byte
@@ -97,7 +99,7 @@ Definition chunked_copy (c:column) (cs:Z) : res column :=
 Definition stream_fuel (c:column) (m:list Z) : nat :=
   match c with
   | CFix _ _ _ => S (length m)
-  | CIdx idx _ => S (length m + length idx)
+  | CIdx idx _ => (2 * length m + length idx + 2)%nat
   end.
 
 Definition map_column_stream (c:column) (m:list Z) (inv cs vf:Z) : res column :=
